@@ -375,18 +375,20 @@ impl<T: Tok + Signature> Tok for Var<T> {
         self.0.to_tok(out, s);
     }
 }
-impl<T> Signature for Var<T> {
+/// Var<T> does NOT describe the variant itself: alignment, signature and has_sig are those of the crate's
+/// marshal::traits::Variant<T> (the type a user pushes), so that they are what containers around it see
+impl<T: Marshal> Signature for Var<T> {
     fn signature() -> rustbus::signature::Type {
-        rustbus::signature::Type::Container(rustbus::signature::Container::Variant)
+        <rustbus::wire::marshal::traits::Variant<T> as Signature>::signature()
     }
     fn alignment() -> usize {
-        1
+        <rustbus::wire::marshal::traits::Variant<T> as Signature>::alignment()
     }
     fn sig_str(s: &mut SignatureBuffer) {
-        s.push_static("v")
+        <rustbus::wire::marshal::traits::Variant<T> as Signature>::sig_str(s)
     }
     fn has_sig(s: &str) -> bool {
-        s.starts_with('v')
+        <rustbus::wire::marshal::traits::Variant<T> as Signature>::has_sig(s)
     }
 }
 impl<T: Marshal> Marshal for Var<T> {
@@ -394,11 +396,118 @@ impl<T: Marshal> Marshal for Var<T> {
         rustbus::wire::marshal::traits::Variant(&self.0).marshal(ctx)
     }
 }
-impl<'buf, 'fds, T: Unmarshal<'buf, 'fds>> Unmarshal<'buf, 'fds> for Var<T> {
+impl<'buf, 'fds, T: Marshal + Unmarshal<'buf, 'fds>> Unmarshal<'buf, 'fds> for Var<T> {
     fn unmarshal(ctx: &mut UnmarshalContext<'fds, 'buf>) -> Result<Self, UnmarshalError> {
         let v = rustbus::wire::unmarshal::traits::Variant::unmarshal(ctx)?;
         v.get::<T>().map(Var)
     }
+}
+
+/// catalogue flavour V[..]: the same value, but alignment, signature and has_sig are those of the crate's
+/// unmarshal::traits::Variant (the type a user asks the parser for)
+#[derive(Debug, Clone)]
+pub struct UVar<T>(pub T);
+impl<T: Tok + Signature> Tok for UVar<T> {
+    fn from_tok(a: &mut Args) -> Self {
+        UVar(Var::<T>::from_tok(a).0)
+    }
+    fn to_tok(&self, out: &mut Vec<String>, s: bool) {
+        out.push("v".into());
+        out.push(sig_of::<T>());
+        self.0.to_tok(out, s);
+    }
+}
+impl<T> Signature for UVar<T> {
+    fn signature() -> rustbus::signature::Type {
+        <rustbus::wire::unmarshal::traits::Variant<'static, 'static> as Signature>::signature()
+    }
+    fn alignment() -> usize {
+        <rustbus::wire::unmarshal::traits::Variant<'static, 'static> as Signature>::alignment()
+    }
+    fn sig_str(s: &mut SignatureBuffer) {
+        <rustbus::wire::unmarshal::traits::Variant<'static, 'static> as Signature>::sig_str(s)
+    }
+    fn has_sig(s: &str) -> bool {
+        <rustbus::wire::unmarshal::traits::Variant<'static, 'static> as Signature>::has_sig(s)
+    }
+}
+impl<T: Marshal> Marshal for UVar<T> {
+    fn marshal(&self, ctx: &mut MarshalContext) -> Result<(), MarshalError> {
+        rustbus::wire::marshal::traits::Variant(&self.0).marshal(ctx)
+    }
+}
+impl<'buf, 'fds, T: Unmarshal<'buf, 'fds>> Unmarshal<'buf, 'fds> for UVar<T> {
+    fn unmarshal(ctx: &mut UnmarshalContext<'fds, 'buf>) -> Result<Self, UnmarshalError> {
+        let v = rustbus::wire::unmarshal::traits::Variant::unmarshal(ctx)?;
+        v.get::<T>().map(UVar)
+    }
+}
+
+// ---------------------------------------------------------------- where the body under test lives
+/// A body is read relative to its buf_offset; a freshly built one has offset 0, a received one sits behind the header in
+/// the message buffer. The operations that READ a body (RT, RP, RV, BV, BA) take a placement from the op token
+/// ("RT@112", "RP@recv"): At(n) = from_parts(n foreign bytes ++ body, n), Recv = through the real receive path.
+#[derive(Clone, Copy, PartialEq, Debug)]
+pub enum Place {
+    At(usize),
+    Recv,
+}
+thread_local! {
+    pub static PLACE: std::cell::Cell<Place> = std::cell::Cell::new(Place::At(0));
+}
+/// splits "RT@112" into ("RT", placement) and remembers the placement for this line
+pub fn take_place(op: &str) -> &str {
+    let (base, place) = match op.split_once('@') {
+        None => (op, Place::At(0)),
+        Some((b, "recv")) => (b, Place::Recv),
+        Some((b, n)) => (b, Place::At(n.parse().unwrap())),
+    };
+    PLACE.with(|p| p.set(place));
+    base
+}
+pub fn rehome_parts(bo: ByteOrder, sig: &str, bytes: &[u8], fds: Vec<UnixFd>, n: usize) -> MarshalledMessageBody {
+    let mut buf = vec![0xAAu8; n];
+    buf.extend_from_slice(bytes);
+    MarshalledMessageBody::from_parts(buf, n, fds, sig.to_owned(), bo)
+}
+/// moves the body of `msg` to the placement of this line; answers how it got there: "none" (offset 0, untouched),
+/// "parts" (from_parts with an offset), "wire" (marshal + unmarshal_header + unmarshal_dynamic_header + unmarshal_next_message)
+pub fn place(msg: &mut rustbus::message_builder::MarshalledMessage) -> &'static str {
+    use rustbus::wire::unmarshal::{unmarshal_dynamic_header, unmarshal_header, unmarshal_next_message};
+    let n = match PLACE.with(|p| p.get()) {
+        Place::At(0) => return "none",
+        Place::At(n) => n,
+        Place::Recv => {
+            let bo = msg.body.byteorder();
+            let mut outer = rustbus::message_builder::MessageBuilder::with_byteorder(bo).signal("io.verif.Wire", "Moved", "/io/verif/wire").build();
+            std::mem::swap(&mut outer.body, &mut msg.body);
+            let got = (|| {
+                let mut wire = Vec::new();
+                rustbus::wire::marshal::marshal(&outer, std::num::NonZeroU32::new(1).unwrap(), &mut wire).ok()?;
+                wire.extend_from_slice(outer.get_buf());
+                let mut cursor = rustbus::wire::unmarshal_context::Cursor::new(&wire);
+                let header = unmarshal_header(&mut cursor).ok()?;
+                let dynheader = unmarshal_dynamic_header(&header, &mut cursor).ok()?;
+                let consumed = cursor.consumed();
+                unmarshal_next_message(&header, dynheader, wire, consumed, outer.body.get_fds().to_vec()).ok()
+            })();
+            match got {
+                Some(rx) if rx.get_sig() == outer.get_sig() && rx.get_buf() == outer.get_buf() => {
+                    msg.body = rx.body;
+                    return "wire";
+                }
+                _ => {
+                    // not sendable as a message (signature over 255 characters, ..): the same bytes behind 112 others
+                    std::mem::swap(&mut outer.body, &mut msg.body);
+                    112
+                }
+            }
+        }
+    };
+    let fds = msg.body.get_fds().to_vec();
+    let body = rehome_parts(msg.body.byteorder(), msg.get_sig(), msg.get_buf(), fds, n);
+    msg.body = body;
+    "parts"
 }
 
 // ---------------------------------------------------------------- borrowed / flavoured types (same D-Bus type, other Rust impl)
@@ -681,6 +790,20 @@ pub fn bo(a: &mut Args) -> ByteOrder {
     }
 }
 
+/// MA <bo> <prefix-count> <value>: the free function message_builder::marshal_as_variant(value, bo, buf, fds) on a buffer that
+/// already holds <prefix-count> bytes. Prints ok|err and the buffer (no signature: the function does not know a body).
+pub fn marshal_as_variant_free<T: Tok + Marshal>(a: &mut Args) -> String {
+    let byteorder = bo(a);
+    let prefix = a.num();
+    let v = T::from_tok(a);
+    let mut ordered = Vec::new();
+    v.to_tok(&mut ordered, false);
+    let mut buf: Vec<u8> = (0..prefix).map(|i| (i as u8).wrapping_mul(37).wrapping_add(1)).collect();
+    let mut fds = Vec::new();
+    let r = rustbus::message_builder::marshal_as_variant(&v, byteorder, &mut buf, &mut fds);
+    format!("{} sig=- buf={} nfds={} val=v {} {}", if r.is_ok() { "ok" } else { "err" }, crate::hex(&buf), fds.len(), sig_of::<T>(), ordered.join(" "))
+}
+
 /// Operations on a type that can only be marshalled (catalogue::MARSHAL_ONLY). MT as in `run`; RT marshals prefix, value
 /// and trailer and hands the body back ("BODY <bo> <prefix> <nfds> <sig hex> <buf hex> <value tokens, canonical>") for bin/wire.rs to
 /// read it with the dynamic API, because there is no typed decoder for these types.
@@ -717,6 +840,7 @@ where
             v.to_tok(&mut orig, true);
             format!("BODY {} {} {} {} {} {}", bo_tok, prefix, msg.body.get_fds().len(), crate::hex(msg.get_sig().as_bytes()), crate::hex(msg.get_buf()), orig.join(" "))
         }
+        "MA" => marshal_as_variant_free::<T>(a),
         _ => "NOOP".to_string(),
     }
 }
@@ -760,6 +884,7 @@ where
                 return "pusherr".to_string();
             }
             msg.body.push_param(0xA5u8).unwrap();
+            let placed = place(&mut msg);
             let valid = msg.body.validate().is_ok();
             let mut p = msg.body.parser();
             for _ in 0..prefix {
@@ -785,7 +910,7 @@ where
             let mut orig = Vec::new();
             v.to_tok(&mut orig, true);
             let (cb, co) = take_cow_counts();
-            format!("{} validate={} {} left={} same={} cow=b{}o{} val={}", res, valid, trailer, left, orig == out, cb, co, out.join(" "))
+            format!("{} validate={} {} left={} same={} cow=b{}o{} place={} val={}", res, valid, trailer, left, orig == out, cb, co, placed, out.join(" "))
         }
         // UT <bo> <offset> <nfds> <memphase> <hex>: typed unmarshal of T from raw bytes at offset, buffer placed at
         // address = 8k + memphase. Prints ok <consumed> <value> | err
@@ -821,6 +946,35 @@ where
             set_fd_table(&[]);
             res
         }
+        // GT <bo> <nfds> <sig hex> <hex>: a body built from parts (at the placement of this line), asked for a T:
+        // get::<T>() -> ok <value> | wrongsig | end | err, then how many signature items are left and what get_next_sig says
+        "GT" => {
+            let byteorder = bo(a);
+            let nfds = a.num() as usize;
+            let sig = String::from_utf8(crate::unhex(a.next())).unwrap();
+            let bytes = crate::unhex(a.next());
+            let fds: Vec<UnixFd> = (0..nfds).map(|_| UnixFd::new(nix::unistd::dup(2).unwrap())).collect();
+            let n = match PLACE.with(|p| p.get()) {
+                Place::At(n) => n,
+                Place::Recv => 112,
+            };
+            let body = rehome_parts(byteorder, &sig, &bytes, fds, n);
+            let mut p = body.parser();
+            let before = p.sigs_left();
+            let res = match p.get::<T>() {
+                Ok(x) => {
+                    let mut out = Vec::new();
+                    x.to_tok(&mut out, true);
+                    format!("ok {}", out.join(" "))
+                }
+                Err(UnmarshalError::WrongSignature) => "wrongsig".to_string(),
+                Err(UnmarshalError::EndOfMessage) => "end".to_string(),
+                Err(_) => "err".to_string(),
+            };
+            take_cow_counts();
+            format!("{} before={} left={}", res, before, p.sigs_left())
+        }
+        "MA" => marshal_as_variant_free::<T>(a),
         // ---- C15: operations on the thread-local body / parser
         // BPUSH <value> | BPUSHV <value> | BPUSHN <k> <v1..vk>   (k = 2..5: push_param<k>, otherwise push_params)
         "BPUSH" => {
